@@ -14,23 +14,30 @@ from harness.lib import common
 
 PROP = 'C10'
 PROP_FILE = 'Props/C10.v'
-THEOREMS = ['C10_percent_encode_ascii_clean', 'C10_percent_encode_fixpoint',
-            'C10_upper_pe_idempotent', 'C10_upper_pe_escapes_upper']
+THEOREMS = ['C10_idempotent', 'C10_ascii_clean', 'C10_canonical', 'C10_idempotent_any_encoding_refuted', 'C10_utf8_encoder_ok',
+            'C10_flatten_path_idempotent', 'C10_flatten_path_no_dot_segments', 'C10_flatten_path_fixpoint',
+            'C10_upper_pe_idempotent', 'C10_upper_pe_escapes_upper',
+            'C10_percent_encode_ascii_clean', 'C10_percent_encode_fixpoint']
 TRUSTED = [
     'hand-written model Model/Url.v + Model/UrlLib.v of wpull/url.py, tied by the vm_compute correspondence of this run '
-    '(all attributes, .url, every accessor, error kind)',
-    'oracles of the model (Section variables): codecs other than UTF-8, str.lower/int()/idna on non-ASCII text, '
-    'IPv6Address.compressed, urllib.parse.unquote; their hypotheses are premises of the theorems and are sampled every run',
-    'Python primitives modelled concretely in Gallina (strip/partition/find/split/join, ASCII lower, UTF-8, int() on ASCII, '
-    'idna ASCII fast path, decimal formatting): compared directly against the interpreter in the component correspondence',
+    '(error kind or all 14 attributes, .url, every accessor, parse_url_or_log) on generated URLs',
+    'library calls that are not wpull code are function parameters of the theorems (codec, str.lower / idna / int() on non-ASCII '
+    'text, IPv6Address.compressed, urllib unquote); the hypotheses about them (enc_ok, lower_ok, idna_ok, ipv6_ok, unquote_ok) are '
+    'explicit premises, each sampled against the real library on every run - validation of an assumption, not a proof',
+    'Python primitives modelled concretely in Gallina (strip/partition/rpartition/find/split/join/count, ASCII lower, UTF-8, int() '
+    'on ASCII incl. the 4300-digit limit, idna ASCII fast path, decimal formatting, unquote_to_bytes): each compared directly '
+    'against the interpreter in the component correspondence of this run',
 ]
 ASSUMPTIONS = [
-    'encoder is character-wise, the identity on ASCII, yields 1..n bytes < 256 and only bytes >= 0x40 for a non-ASCII character '
-    '(true of utf-8, latin-1, cp125x, shift_jis, gbk, big5, euc-*; FALSE for utf-16/32, utf-7, EBCDIC, iso-2022: known finding)',
-    'non-ASCII path of the idna codec outputs only characters 0x20..0x7f (sampled)',
-    'IPv6Address(x).compressed for zone-free x is over [0-9a-f:.] and a fixpoint of itself (sampled)',
-    'urllib.parse.unquote(., utf-8) inverts the UTF-8 percent-encoding of user-info (sampled; only used for URLs with user-info)',
-    'str.isspace() set, exception class hierarchy: compared exhaustively with the interpreter on every run',
+    'enc_ok: text.encode(E) is character-wise, the identity on ASCII, and gives 1..n bytes, all >= 0x40, for a non-ASCII character '
+    '(PROVED for utf-8: C10_utf8_encoder_ok; sampled per run over the whole BMP for latin-1, shift_jis, cp1252, euc_jp, gbk, koi8_r; '
+    'FALSE for utf-16/32, utf-7, EBCDIC, iso-2022, where the property itself fails: known finding encoding-not-ascii-transparent)',
+    'lower_ok: str.lower() never produces a C0 control (checked for every code point on every run)',
+    'idna_ok: the non-ASCII path of the idna codec outputs no C0 control for input without one (sampled on every IDN host of the run)',
+    'ipv6_ok: IPv6Address(x).compressed is over [0-9a-f:.] and a fixpoint of itself (sampled on every IPv6 literal of the run)',
+    'unquote_ok: urllib.parse.unquote(a, E, "replace") = unquote_to_bytes(a).decode(E, "replace") for ASCII a, and '
+    'E.encode(E.decode(b)) = b for b produced by E.encode (sampled on every user-info of the run; only C10_idempotent uses it)',
+    'str.isspace() set and the exception class hierarchy: compared exhaustively with the interpreter on every run',
 ]
 
 NET = ['http', 'https', 'ftp', 'gopher', 'ws', 'wss']
@@ -497,7 +504,7 @@ def gen_components(r, n):
     cs = []
     alpha = 'ab/.%41fF\xe9 ?#"<>`\\:@+&=_-0x\u3000'
     for _ in range(n):
-        t = r.randrange(9)
+        t = r.randrange(10)
         s = ''.join(r.choice(alpha) for _ in range(r.randrange(0, 14)))
         if t == 0:
             p = '/'.join(r.choice(['a', 'b', '.', '..', '', '...', 'c.d', '%2e']) for _ in range(r.randrange(0, 7)))
@@ -523,6 +530,9 @@ def gen_components(r, n):
             hst = gen_host(r)[0]
             if hst.isascii():
                 cs.append({'f': 'nhost', 'a': [h6(hst)]})
+        elif t == 9:
+            u = ''.join(r.choice('%%%%aAfF09gGxZ /:@25') for _ in range(r.randrange(0, 14)))
+            cs.append({'f': 'unesc', 'a': [h6(u)]})
         elif t == 7:
             cs.append({'f': 'qmap', 'a': [h6('&'.join(r.choice(QUERY_BITS) for _ in range(r.randrange(0, 5))))]})
         else:
@@ -552,6 +562,8 @@ def coq_component(c, res):
         return 'opt_str_eqb (Some (qmap_ser (query_to_map (%s)))) (%s)' % (cq(a[0]), cq_opt(ok))
     if f == 'dec':
         return 'opt_str_eqb (Some (dec_of_N %d)) (%s)' % (a[0], cq_opt(ok))
+    if f == 'unesc':
+        return 'opt_str_eqb (Some (unescape (%s))) (%s)' % (cq(a[0]), 'None' if ok is None else 'Some (unhex "%s")' % ok)
     raise RuntimeError(f)
 
 
@@ -596,25 +608,40 @@ def check_constants_and_samples(cases, results):
         got = [list(x) if isinstance(x, (list, tuple)) else x for x in consts[k]]
         if got != v:
             dis.append({'constant': k, 'impl': got, 'model': v, 'note': 'constant of url.py differs from the model'})
-    idna, ipv6, users = set(), set(), set()
+    idna, ipv6, users, lower, enc_texts, unq = set(), set(), set(), set(), set(), set()
     for c, res in zip(cases, results):
-        for k, _ in res['oracles']['idna']:
+        o = res['oracles']
+        for k, _ in o['idna']:
             idna.add(k)
-        for k, _ in res['oracles']['ipv6']:
+        for k, _ in o['ipv6']:
             ipv6.add(k)
+        for k, _ in o['lower']:
+            lower.add(k)
+        for k, _ in o['enc']:
+            if len(k) < 6 * 200:
+                enc_texts.add((c['enc'], k))
+        for k, _ in o['unq']:
+            if len(k) < 6 * 200:
+                unq.add((c['enc'], k))
         if len(res['obs']) > 10:
             for f in (res['obs'][9], res['obs'][10]):
-                if f != '110001':
-                    users.add(f)
-    smp = common.run_impl('c10_impl.py', {'mode': 'sample', 'idna': sorted(idna), 'ipv6': sorted(ipv6), 'userinfo': sorted(users)})
+                if f != '110001' and len(f) < 6 * 200:
+                    users.add((c['enc'], f))
+    good = set(['utf-8'] + ENCODINGS)        # the hypotheses are claimed (and sampled) for these codecs only
+    enc_texts = {x for x in enc_texts if x[0] in good}
+    unq = {x for x in unq if x[0] in good}
+    users = {x for x in users if x[0] in good}
+    smp = common.run_impl('c10_impl.py', {'mode': 'sample', 'idna': sorted(idna), 'ipv6': sorted(ipv6), 'lower': sorted(lower),
+                                          'codecs': ['utf-8'] + ENCODINGS, 'enc_texts': sorted(enc_texts)[:4000],
+                                          'unq': sorted(unq)[:4000], 'userinfo': sorted(users)[:4000]})
     if smp['spaces'] != EXPECTED_SPACES:
         dis.append({'note': 'str.isspace() set of the interpreter differs from UrlLib.is_space', 'impl': smp['spaces']})
     if not all(smp['hierarchy']):
         dis.append({'note': 'exception class hierarchy differs from Url.is_value_error', 'impl': smp['hierarchy']})
     for b in smp['bad'][:5]:
-        dis.append({'note': 'oracle hypothesis failed on a sample', 'which': b[0], 'input': ascii(un6(b[1]))})
-    return dis, {'idna_outputs_checked': len(idna), 'ipv6_outputs_checked': len(ipv6), 'unquote_inverse_checked': len(users),
-                 'isspace_code_points_compared': 0x110000, 'failed': len(smp['bad'])}
+        dis.append({'note': 'oracle hypothesis of the C10 theorems failed on a sample', 'which': b[0], 'input': ascii(un6(b[1]))})
+    out = {'hypothesis_samples': smp['counts'], 'isspace_code_points_compared': 0x110000, 'failed': len(smp['bad'])}
+    return dis, out
 
 
 # --------------------------------------------------------------------------
@@ -635,9 +662,6 @@ def classify_common(v):
     enc = case.get('enc', 'utf-8')
     if enc.replace('_', '-').lower() in ('utf-16', 'utf-32', 'utf-7', 'cp037', 'iso2022-jp'):
         return 'encoding-not-ascii-transparent'
-    if enc != 'utf-8' and '@' in url and ('not-idempotent' in why or 'variant' in why) and \
-            any(ord(c) > 127 or c == '%' for c in url.split('@')[0]):
-        return 'userinfo-reencoded-as-utf8-under-other-encoding'
     return '%s/%s' % (why.split(',')[0], enc)
 
 
@@ -718,7 +742,7 @@ def search(ctx, disagreements, tag='c10-search', pred=is_c10_reason, gen=None, s
     for d in disagreements:
         if 'url_hex' in d:
             cases.append({'url': d['url_hex'], 'enc': d.get('enc', 'utf-8'), 'tag': 'disagreement', 'variants': []})
-    cases += (gen or generate)(r, 60000 if not ctx.thorough else 300000, ctx.repo)
+    cases += (gen or generate)(r, 15000 if not ctx.thorough else 300000, ctx.repo)
     results = run_impl_parse(cases, script=script)
     return violations_from(cases, results, pred)
 
@@ -731,15 +755,18 @@ def replay(ctx, data, pred=is_c10_reason, script='c10_impl.py'):
     return any(pred(b) for b in res.get('bad', []))
 
 
-LEVEL_TEXT = ('Coq theorems over the executable model of wpull/url.py, for ALL input strings and every character-wise ASCII-transparent '
-              'encoder: the normalized URL is ASCII 0x21..0x7f (C10_ascii_clean), has lower-case scheme and host, no default port, an '
-              'absolute path without dot or empty segments and upper-case escapes (C10_canonical), and each normalized component is a '
-              'fixpoint of its normalizer (C10_idempotent_partial); component laws for flatten_path, percent_encode and '
-              'uppercase_percent_encoding. Closed under the global context. The model is tied to the code on every run by evaluating it '
-              'inside Coq against URLInfo.parse and all accessors on generated URLs.')
-LEVEL_NOTE = ('Trusted: Coq kernel + vm_compute; the hand-written model; oracle hypotheses for the idna codec (non-ASCII path), '
-              'IPv6Address.compressed and unquote (sampled every run, not proved); the encoder hypothesis excludes utf-16/32, utf-7, EBCDIC '
-              'and iso-2022 codecs, for which the property is false (known finding). Whole-URL re-parse (split of the reassembled string '
-              'back into the same components) and the spelling-equivalence clause are covered by the correspondence and the '
-              'implementation-side metamorphic check, not by a theorem.')
+LEVEL_TEXT = ('Coq theorems over the executable model of wpull/url.py, for ALL input strings the parser accepts as a network URL and every '
+              'encoder / library behaviour satisfying the stated hypotheses: the normalized URL parses again to the same normalized URL and '
+              'the same scheme, host, port, path and query (C10_idempotent - whole URL incl. user-info, IDNA-mapped hosts, IPv4 spellings, '
+              'IPv6 literals, ports); it is ASCII 0x21..0x7f (C10_ascii_clean); it has lower-case scheme and host, the port only when not '
+              'the default, an absolute path without dot or empty segments and only upper-case escapes (C10_canonical); component laws for '
+              'flatten_path, percent_encode and uppercase_percent_encoding; UTF-8 satisfies the encoder hypothesis (C10_utf8_encoder_ok). '
+              'All closed under the global context. The clause "spellings that differ only in those respects normalize to the same string" '
+              'is NOT a theorem: it is checked on the implementation for every generated URL (case, default port, dot segments, escape '
+              'case, fragment, IPv4 re-spelling variants). The model is tied to the code on every run by evaluating it inside Coq against '
+              'URLInfo.parse and all accessors.')
+LEVEL_NOTE = ('Trusted: Coq kernel + vm_compute; the hand-written model; the five library hypotheses (sampled every run, not proved, except '
+              'enc_ok for utf-8 which is proved). The encoder hypothesis excludes utf-16/32, utf-7, EBCDIC and iso-2022 codecs, for which '
+              'the property is false on the real code (C10_idempotent_any_encoding_refuted; known finding with replay). Spelling '
+              'equivalence and IPv6 re-spelling are carried by the correspondence / metamorphic check only.')
 TECHNIQUE = 'Coq proofs over an executable Gallina transcription of url.py with library oracles as section hypotheses; vm_compute correspondence'
